@@ -4,5 +4,5 @@ From FB Require Import Sem.Base Model.Fb Model.TokioAsync GenEq.Tac.
 From FB Require Gen.TokioGen.
 Open Scope Z_scope.
 
-Lemma gen_eq : forall s, TokioGen.aco_pre s = TokioAsync.aco_pre s.
+Lemma gen_eq : forall chk s, TokioGen.aco_pre chk s = TokioAsync.aco_pre s.
 Proof. gen_eq. Qed.
